@@ -120,6 +120,9 @@ class NormCase:
         return {"runner_job": self.job()}
 
 
+NOT_EPB = ("NEPB", "COGEN")
+
+
 def gen_norm_building(rng):
     """buildings that stress completion and auxiliary assignment"""
     b = gen.gen_building(rng, allow_multi_aux=True, n=rng.choice([1, 2, 3, 3, 12]))
@@ -170,6 +173,23 @@ def gen_norm_building(rng):
             b.add("CONSUMO", id=i, service="ACS", carrier="EAMBIENTE", values=u)
             b.add("PRODUCCION", id=i, source="EAMBIENTE", values=[x * f for x in u])
         b.tags.add("amb_two_systems")
+    if rng.random() < 0.2:
+        # a unit with one EPB service whose id also carries a use that is not an EPB service (the fuel of a cogeneration unit, a
+        # non-EPB use): it serves one service, so all its auxiliary energy goes there and no output energy is needed
+        i = rng.choice([61, 62])
+        srv = rng.choice(["CAL", "ACS", "REF"])
+        if rng.random() < 0.6:
+            el = gen.vec(rng, n, pzero=0.0)
+            b.add("CONSUMO", id=i, service="COGEN", carrier=rng.choice(["GASNATURAL", "BIOMASA"]), values=[x * 9 / 4 for x in el])
+            b.add("PRODUCCION", id=i, source="EL_COGEN", values=el)
+        else:
+            b.add("CONSUMO", id=i, service="NEPB", carrier=rng.choice(["ELECTRICIDAD", "GASNATURAL"]), values=gen.vec(rng, n))
+        u = gen.vec(rng, n, pzero=0.2)
+        b.add("CONSUMO", id=i, service=srv, carrier=rng.choice(["GASNATURAL", "ELECTRICIDAD"]), values=u)
+        if rng.random() < 0.5:
+            b.add("SALIDA", id=i, service=srv, values=[x * 7 / 8 for x in u])       # zero where the use is zero
+        b.add("AUX", id=i, values=gen.vec(rng, n, hi=64 * 20, pzero=0.0))
+        b.tags.add("aux_unit_with_non_service_use")
     rng.shuffle(b.lines)
     return b
 
@@ -329,7 +349,7 @@ def oracle_c06(c):
         # the only admissible error: multi-service system, auxiliaries > 0, no output energy at all
         if r.get("err") == "WrongInput" and aux_ids:
             for i in aux_ids:
-                srvs = {e["service"] for e in raw if e["kind"] == "Used" and e["id"] == i}
+                srvs = {e["service"] for e in raw if e["kind"] == "Used" and e["id"] == i and e["service"] not in NOT_EPB}
                 declared = sum(sum(_vals(e)) for e in raw if e["kind"] == "Aux" and e["id"] == i)
                 outs = [e for e in raw if e["kind"] == "Out" and e["id"] == i]
                 qtot = sum(abs(x) for x in _sumv([[abs(v) for v in _vals(e)] for e in outs], n))
@@ -348,7 +368,8 @@ def oracle_c06(c):
         declared = _sumv([_vals(e) for e in raw if e["kind"] == "Aux" and e["id"] == i], n)
         after_list = [e for e in norm if e["kind"] == "Aux" and e["id"] == i]
         after = _sumv([_vals(e) for e in after_list], n)
-        srvs = sorted({e["service"] for e in raw if e["kind"] == "Used" and e["id"] == i})
+        # only EPB services count: a non-EPB use or the fuel input of a cogeneration unit is not a service the system serves
+        srvs = sorted({e["service"] for e in raw if e["kind"] == "Used" and e["id"] == i and e["service"] not in NOT_EPB})
         for e in after_list:
             if any(v < -tol for v in _vals(e)):
                 bad.append(("negative auxiliary share", {"id": i, "service": e["service"]}))
